@@ -266,6 +266,109 @@ class Provenance(Interp):
         old = env.get(key) or NONE
         env[key] = self.join(old, elem) if old else elem
 
+    def stmt_For(self, st, env):
+        """An accumulation loop over a whole list of values is the sum of the stacked list:
+            acc = <zeros>;  for v in L:      acc = acc + v   (or acc += v: acc is a value created here)
+            acc = L[0];     for v in L[1:]:  acc = acc + v   (rebinding only: `acc += v` would write into L[0])
+        -> acc = sum[dim=0](stack(L)), the term of torch.sum(torch.stack(L), dim=0)."""
+        if isinstance(st.iter, (ast.Tuple, ast.List)) and st.iter.elts and all(isinstance(e, ast.Constant) and isinstance(e.value, str) for e in st.iter.elts) and isinstance(st.target, ast.Name) and not st.orelse and not any(isinstance(x, ast.Break) for x in ast.walk(st)) and not any(isinstance(x, (ast.Assign, ast.AugAssign)) and any(isinstance(t, ast.Name) and t.id == st.target.id for t in ast.walk(x.targets[0] if isinstance(x, ast.Assign) else x.target)) for x in ast.walk(st)):
+            # a loop over a literal tuple of attribute names is unrolled: the name becomes the constant, and
+            # getattr(obj, "name") the attribute obj.name (the stages fetched that way are the declared ones)
+            import copy
+            from .absint import _Flow
+
+            var = st.target.id
+
+            class _Sub(ast.NodeTransformer):
+                def __init__(self, c):
+                    self.c = c
+
+                def visit_Name(self, n):
+                    return ast.copy_location(ast.Constant(value=self.c), n) if n.id == var and isinstance(n.ctx, ast.Load) else n
+
+                def visit_Call(self, n):
+                    self.generic_visit(n)
+                    if isinstance(n.func, ast.Name) and n.func.id == "getattr" and len(n.args) == 2 and isinstance(n.args[1], ast.Constant) and isinstance(n.args[1].value, str) and n.args[1].value.isidentifier():
+                        return ast.copy_location(ast.Attribute(value=n.args[0], attr=n.args[1].value, ctx=ast.Load()), n)
+                    return n
+
+            cur = dict(env)
+            self.loop_depth_unrolled = getattr(self, "loop_depth_unrolled", 0) + 1
+            try:
+                for e in st.iter.elts:
+                    body = [ast.fix_missing_locations(_Sub(e.value).visit(copy.deepcopy(b))) for b in st.body]
+                    # a local bound once to an attribute chain (`stage = self.quantizer`) is read as that attribute
+                    alias = {}
+                    for b in body:
+                        if isinstance(b, ast.Assign) and len(b.targets) == 1 and isinstance(b.targets[0], ast.Name) and isinstance(b.value, ast.Attribute) and attr_chain(b.value):
+                            nm_ = b.targets[0].id
+                            if sum(1 for x in body for y in ast.walk(x) if isinstance(y, ast.Name) and y.id == nm_ and isinstance(y.ctx, ast.Store)) == 1:
+                                alias[nm_] = b.value
+
+                    class _Al(ast.NodeTransformer):
+                        def visit_Name(self, n):
+                            return copy.deepcopy(alias[n.id]) if n.id in alias and isinstance(n.ctx, ast.Load) else n
+
+                    if alias:
+                        body = [ast.fix_missing_locations(_Al().visit(b)) for b in body]
+                    f = self.exec_block(body, cur)
+                    nxt = f.env
+                    for c in f.continues:
+                        nxt = self.join_env(nxt, c)
+                    if nxt is None:
+                        return _Flow(None)
+                    cur = nxt
+            finally:
+                self.loop_depth_unrolled -= 1
+            return _Flow(cur)
+        acc = self._accumulation(st, env)
+        if acc is not None:
+            name, lst = acc
+            val = self.eval(lst, env)
+            if val:
+                from .absint import _Flow
+
+                out = dict(env)
+                out[name] = self._terms("sum[dim=0]", [self._terms("stack", [val])])
+                if isinstance(st.target, ast.Name):
+                    out[st.target.id] = self.iter_element(val, st.iter, out)
+                return _Flow(out)
+        return super().stmt_For(st, env)
+
+    def _accumulation(self, st, env):
+        if st.orelse or len(st.body) != 1 or not isinstance(st.target, ast.Name):
+            return None
+        b, v = st.body[0], st.target.id
+        if isinstance(b, ast.AugAssign) and isinstance(b.op, ast.Add) and isinstance(b.target, ast.Name) and isinstance(b.value, ast.Name) and b.value.id == v:
+            acc, inplace = b.target.id, True
+        elif isinstance(b, ast.Assign) and len(b.targets) == 1 and isinstance(b.targets[0], ast.Name) and isinstance(b.value, ast.BinOp) and isinstance(b.value.op, ast.Add) and sorted(x.id for x in (b.value.left, b.value.right) if isinstance(x, ast.Name)) == sorted([b.targets[0].id, v]) and b.targets[0].id != v:
+            acc, inplace = b.targets[0].id, False
+        else:
+            return None
+        init = getattr(self, "_last_bind", {}).get(acc)
+        if init is None:
+            return None
+        if isinstance(st.iter, ast.Name):
+            # all elements: the accumulator must start as a zero created here
+            z = init
+            if isinstance(z, ast.Call) and (unparse(z.func).split(".")[-1] in ("zeros_like", "zeros")) and (unparse(z.func).split(".")[-1] == "zeros" or (z.args and isinstance(z.args[0], ast.Subscript) and isinstance(z.args[0].value, ast.Name) and z.args[0].value.id == st.iter.id) or (z.args and isinstance(z.args[0], ast.Name))):
+                return acc, st.iter
+            if isinstance(z, ast.Constant) and z.value in (0, 0.0) and not inplace:
+                return acc, st.iter
+            return None
+        if isinstance(st.iter, ast.Subscript) and isinstance(st.iter.value, ast.Name) and isinstance(st.iter.slice, ast.Slice) and unparse(st.iter.slice) == "1:" and not inplace:
+            if isinstance(init, ast.Subscript) and isinstance(init.value, ast.Name) and init.value.id == st.iter.value.id and unparse(init.slice) == "0":
+                return acc, st.iter.value
+        return None
+
+    def stmt_Assign(self, st, env):
+        # remember the defining expression of plain names (the accumulation pattern looks at how the accumulator starts)
+        if len(st.targets) == 1 and isinstance(st.targets[0], ast.Name):
+            if not hasattr(self, "_last_bind"):
+                self._last_bind = {}
+            self._last_bind[st.targets[0].id] = st.value
+        return super().stmt_Assign(st, env)
+
     # loops: bind loop-carried variables to φ symbols instead of iterating to a fix-point
     def _loop(self, st, env, bind, test):
         self.loop_depth += 1
